@@ -164,6 +164,11 @@ class C12(Check):
         for other in (("sign", "pubkey") if not self.thorough else ("sign", "pubkey", "heartbeat", "advance", "hash")):
             cs.append({"cmds": [other, "statecut"], "frag": [1, 1], "bound": self.bound - 1})
             cs.append({"cmds": ["statecut", other], "frag": [1, 1], "bound": self.bound - 1})
+        # the manager's real bring-up inside the run: whatever it starts (a monitor thread, a timer) lives
+        # next to the requests
+        for a, b in ((("sign", "state"),) if not self.thorough else (("sign", "state"), ("advance", "heartbeat"),
+                                                                      ("uihb", "pubkey"))):
+            cs.append({"cmds": [a, b], "frag": [1, 1], "bound": self.bound - 1, "bringup": True})
         # the other dongle classes (their connect() runs before the server listens), clients that
         # pause in the middle of their line
         for plat in ("tcp", "sgx"):
@@ -201,7 +206,7 @@ class C12(Check):
             if case.get("gone"):
                 half = lines[0][:len(lines[0]) // 2]
                 frags.append([half, vnet.RESET if case["gone"] == "reset" else vnet.HANGUP])
-            net, info, crashed = vserver.run_server(proto, w, frags, ctx)
+            net, info, crashed = vserver.run_server(proto, w, frags, ctx, bringup=bool(case.get("bringup")))
             return net, w, info, crashed
         return run
 
@@ -238,7 +243,9 @@ class C12(Check):
         stops = "statecut" in cmds and getattr(self, "stops", False)
         answered = [i for i, cl in enumerate(net.clients) if i < len(cmds) and cl.conn is not None and cl.conn.out]
         blocks = [self.solo[(i, k)][1] for i, k in enumerate(cmds) if not stops or i in answered]
-        order = partition(apdus, blocks)
+        # with the real bring-up inside the run (and whatever it starts: a monitor thread, a timer),
+        # exchanges that belong to no request may lie BETWEEN the blocks, never inside one
+        order = partition(apdus, blocks, gaps=bool(case.get("bringup")))
         labels = tuple(p[1].split("|")[0] for ch, p in zip(ctx.choices, ctx.points) if ch and not p[2])
         stats.observe((name, tuple(order) if order else None, labels, sched.deadlock),
                       nontrivial=any(ctx.choices))
@@ -271,10 +278,30 @@ class C12(Check):
                  "the complete APDU block of one request after the other")
 
 
-def partition(apdus, blocks):
+def partition(apdus, blocks, gaps=False):
     """order (list of block indices) such that apdus == concatenation of those blocks, each block
-    used exactly once; None if impossible"""
+    used exactly once; None if impossible.  gaps: APDUs of no block may lie between blocks."""
     n = len(blocks)
+    if gaps:
+        import functools
+
+        @functools.lru_cache(maxsize=None)
+        def rec2(pos, used):
+            if len(used) == n:
+                return ()
+            if pos >= len(apdus):
+                return None
+            for i in range(n):
+                if i in used:
+                    continue
+                b = blocks[i]
+                if b and apdus[pos:pos + len(b)] == b:
+                    r = rec2(pos + len(b), used | {i})
+                    if r is not None:
+                        return (i,) + r
+            return rec2(pos + 1, used)
+        r = rec2(0, frozenset())
+        return list(r) if r is not None else None
 
     def rec(pos, used):
         if len(used) == n:
